@@ -246,6 +246,9 @@ def r5_linear(ctx):
 
 
 def run(ctx):
+    # the loop progress the inertia-weight mapping reads is written by LessThanN::evaluate, also when it is an operand of And / Or
+    ctx.borrow("C18.R6", "progress is recorded at every evaluation of the loop condition", "c10", "r1_less_than_n", "C10.R1")
+    ctx.borrow("C18.R7", "And / Or evaluate every operand (the progress-recording one included)", "c10", "r6_logical", "C10.R6")
     ctx.guard("C18.REQ", "requirements are checked", lambda: __import__("initspec").check_requires(ctx, "C18"))
     ctx.guard("C18.INIT", "init installs the configured state", lambda: __import__("initspec").check_for(ctx, "C18"))
     ctx.guard("C18.K17", "constructor fidelity", lambda: __import__("ctor").check_for(ctx, "C18", 27))
